@@ -34,7 +34,7 @@ func runOne(prop, variant string, verifSeed uint64, idx, nSites int, src map[str
 	}
 	run := kernel.NewRun(t, res, trace)
 	start := time.Now()
-	conc.Run(run, conc.Params{NSites: nSites, Idx: idx, SetHook: func(h func(uint32)) { verifsim.Hook = h }, SetBlockHook: func(h func(uint32)) { verifsim.BlockHook = h }})
+	conc.Run(run, conc.Params{NSites: nSites, Idx: idx, SetHook: func(h func(uint32)) { verifsim.Hook = h }, SetBlockHook: func(h func(uint32)) { verifsim.BlockHook = h }, SetSyncHook: func(h func(uint32)) { verifsim.SyncHook = h }})
 	run.Finish()
 	res.WallUS = time.Since(start).Microseconds()
 	res.Tape = t.Record()
@@ -101,5 +101,13 @@ func main() {
 		res.JobFrom = *from
 		_ = enc.Encode(res)
 		out.Flush()
+		for _, v := range res.Violations {
+			if v.Class == "deadlock" {
+				// the tasks of this run are still blocked and hold whatever
+				// they hold: nothing further can be learnt in this process
+				out.Flush()
+				os.Exit(3)
+			}
+		}
 	}
 }
